@@ -278,6 +278,50 @@ def isolation(ctx, n):
         d.task_handler._pool.shutdown(wait=False)
 
 
+def shutdown_reaches_every_plugin(ctx, n):
+    """Deep.shutdown: every loaded plugin is shut down exactly once, whichever of them fail and whatever a plugin's base class does."""
+    import deep.api.deep as api
+    from deep.api.plugin import Plugin
+    from deep.config.config_service import ConfigService
+    from deep.config.tracepoint_config import TracepointConfigService
+    rng = ctx.rng
+    for _ in range(n):
+        nplug = rng.choice([2, 3, 4, 5])
+        bad = [rng.random() < 0.3 for _k in range(nplug)]
+        calls = []
+
+        class Plug(Plugin):
+            def __init__(self, i, config):
+                super().__init__("plug%d" % i, config)
+                self.i = i
+
+            def shutdown(self):
+                calls.append(self.i)
+                if bad[self.i]:
+                    raise RuntimeError("plugin %d cannot shut down" % self.i)
+                super().shutdown()
+        cfg = ConfigService({"APP_ROOT": "/app", "NO_TRACE": True}, tracepoints=TracepointConfigService())
+        plugs = [Plug(i, cfg) for i in range(nplug)]
+        saved = api.load_plugins
+        api.load_plugins = lambda config, custom=None: list(plugs)
+        d = api.Deep(cfg)
+        d.grpc.start = lambda: None
+        d.poll = type("P", (), {"start": lambda s: None, "shutdown": lambda s: None})()
+        j = dict(plugins=nplug, shutdown_fails=bad)
+        ctx.case(j, nontrivial=True, bucket="shutdown")
+        try:
+            d.start()
+            d.shutdown()
+        except BaseException as e:
+            ctx.fail("start / shutdown raised %r" % (e,), j, tag="shutdown-raised")
+        finally:
+            api.load_plugins = saved
+            d.task_handler._pool.shutdown(wait=False)
+        if sorted(calls) != list(range(nplug)):
+            ctx.fail("%d plugins loaded; shutdown() was called on %r (each must be shut down exactly once, whichever of them fail: %r)" % (
+                nplug, calls, bad), j, kind="history", tag="plugin-not-shut-down")
+
+
 def run(ctx):
     import logging
     from ..lib.quiet import quiet_logging
@@ -297,6 +341,7 @@ def run(ctx):
     ctx.extra_trusted.append("translator harness/translate/exnflow.py (loop bodies regenerated from /repo/src)")
     loader_cases(ctx, 600 if ctx.thorough else 120)
     isolation(ctx, 300 if ctx.thorough else 60)
+    shutdown_reaches_every_plugin(ctx, 60 if ctx.thorough else 15)
 
 
 def replay(ctx, data):
